@@ -392,6 +392,15 @@ class BuiltB(Built):
 
 @symbol
 @dataclass(eq=False)
+class BuiltEmpty(Built):
+    """an inferred class whose instances are falsy (container-like and empty)"""
+
+    def __len__(self):
+        return 0
+
+
+@symbol
+@dataclass(eq=False)
 class BuiltC(Built):
     pass
 
